@@ -11,13 +11,6 @@ import (
 	"github.com/elastos/Elastos.ELA/zzverif/nd"
 )
 
-type zzArbiters struct {
-	state.Arbitrators
-	cross []*state.ArbiterInfo
-}
-
-func (a *zzArbiters) GetCrossChainArbiters() []*state.ArbiterInfo { return a.cross }
-
 // ZZ_C03_schnorrwithdraw: the Schnorr (payload version 2) withdrawal check
 // never panics, whatever the signer index list (1..3 arbitrary bytes, so
 // duplicates and indexes beyond the arbiter list are included), for 0..3
@@ -47,9 +40,3 @@ func ZZ_C03_schnorrwithdraw() {
 	nd.NoPanic("checkSchnorrWithdrawFromSidechain", func() { checkSchnorrWithdrawFromSidechain(tx, pld, validate) })
 }
 
-func zzKeyBytes(i int) []byte {
-	b := make([]byte, 33)
-	b[0] = 2
-	b[32] = byte(i + 1)
-	return b
-}
